@@ -49,6 +49,13 @@ claim("C04", "model-based property testing against an independent reference auto
       "correct credentials never count, unlock clears both); after every request the stored count, lock deadline and last-attempt stamp and the accept/refuse outcome must equal the model (interval-time semantics).",
       TRUST + " Behaviour exactly at a threshold instant (< vs <=) is out of scope.")
 
+claim("C05", "model-based property testing of token histories (rapid) with a byte-level oracle (decoded bytes == outstanding token) + native fuzz on token strings",
+      WM + "token machine over 2-3 accounts: issue / re-issue / use of confirm and recover tokens; candidates: exact, alternative base64 spellings, every single-bit flip, length edits, "
+      "selector-of-A + verifier-of-B splices, stored selector/verifier strings and their bytes re-encoded, used, superseded, expired, random. Oracle: accept iff the stdlib-decoded bytes equal the model's "
+      "outstanding (latest issued, unused, unexpired) token of some account - then exactly that account is confirmed / gets the new password and its selector+verifier are cleared; otherwise every user record "
+      "is byte-equal before and after; a final sweep submits every genuine outstanding token, which must still work.",
+      TRUST)
+
 NOT_YET = "check not built yet in this round (claimed in DESIGN.md; will be claimed once its check is committed)"
 
 def main():
